@@ -368,4 +368,6 @@ func rulesC02(e *Engine, r *Report) {
 		}
 		r.Min("R02.12", "FileCache.Done calls with a delete callback", n, 1)
 	}
+	// ---------------------------------------------------------------- R02.13
+	e.shareRule(r, "C06", "R06.14", "R02.13", "the receiver answers `held validated` only for content it holds: after a restart a parked older version is not entered under the hash of the newer version whose first parts have rewritten the companion (the sender would be told the newer version had arrived and release it)")
 }
